@@ -45,7 +45,7 @@ class _Merged:
     def __init__(self, base, extras):
         self._base, self._extras = base, extras
         for k in dir(base):
-            if not k.startswith("__"):
+            if not k.startswith("__") and not hasattr(_Merged, k):
                 setattr(self, k, getattr(base, k))
         allm = [base] + extras
         self.GENERATORS = sorted(set(g for m in allm for g in getattr(m, "GENERATORS", [])))
